@@ -77,6 +77,44 @@ for c in req.get("getitem", []):
         res.append(err(e))
 out["getitem"] = res
 
+# ---- slicing chains, lazily: parent and children with the SAME chunks, all evaluated in ONE dask.compute
+res = []
+for c in req.get("joint", []):
+    try:
+        import dask
+        areas = [mk_area(c["area"])]
+        for key in c["keys"]:
+            areas.append(areas[-1][mk_slice(key[0]), mk_slice(key[1])])
+        ch = c["chunks"]
+        ch = tuple(tuple(x) if isinstance(x, list) else x for x in ch) if isinstance(ch, list) else ch
+        lazies = []
+        for a in areas:
+            px, py = a.get_proj_coords(chunks=ch)
+            lo, la = a.get_lonlats(chunks=ch)
+            lazies += [px, py, lo, la]
+        order = list(range(len(lazies)))
+        if c.get("reverse"):
+            order.reverse()
+        r = {"shapes": [obs_area(a)["shape"] for a in areas]}
+        try:
+            joint = dask.compute(*[lazies[i] for i in order], scheduler="synchronous")
+            jj = [None] * len(lazies)
+            for i, v in zip(order, joint):
+                jj[i] = np.asarray(v).tolist()
+            r["joint"] = jj
+        except Exception as e:
+            r["joint"] = err(e)
+        r["alone"] = [np.asarray(x.compute(scheduler="synchronous")).tolist() for x in lazies]
+        r["numpy"] = []
+        for a in areas:
+            px, py = a.get_proj_coords()
+            lo, la = a.get_lonlats()
+            r["numpy"] += [np.asarray(v).tolist() for v in (px, py, lo, la)]
+        res.append(r)
+    except Exception as e:
+        res.append(err(e))
+out["joint"] = res
+
 # ---- concatenate_area_defs on arbitrary pairs, and split at a row + concatenate
 res = []
 for c in req.get("concat", []):
@@ -185,17 +223,50 @@ def mk_swath(cls, lons, lats):
     return SwathDefinition(lons, lats)
 
 
-def tag_arrays(n, m, base=0):
+def back(arr, kind, which=0):
+    """the same values in another container / memory layout / dtype (round 3: input-type classes)"""
+    if kind in (None, "np"):
+        return arr
+    if kind == "np_f":
+        return np.asfortranarray(arr)
+    if kind == "np_strided":
+        wide = np.full((arr.shape[0], 2 * arr.shape[1] + 1), -7.0)
+        wide[:, 1::2] = arr
+        return wide[:, 1::2]
+    if kind == "np_negstride":
+        return np.ascontiguousarray(arr[::-1, ::-1])[::-1, ::-1]
+    if kind == "f32":
+        return arr.astype(np.float32)
+    import xarray as xr
+    n, m = arr.shape
+    if kind == "xr":
+        return xr.DataArray(arr, dims=("y", "x"))
+    if kind == "xr_dask":
+        import dask.array as da
+        return xr.DataArray(da.from_array(arr, chunks=2), dims=("y", "x"))
+    if kind == "xr_lab":
+        return xr.DataArray(arr, dims=("y", "x"), coords={"y": np.arange(n) + 100 * which, "x": np.arange(m)})
+    if kind == "xr_revx":       # the second operand (or a single swath) labels its columns from the other end
+        xl = np.arange(m)[::-1] if which else np.arange(m)
+        return xr.DataArray(arr, dims=("y", "x"), coords={"y": np.arange(n) + 100 * (which == 1), "x": xl})
+    if kind == "xr_float":      # per-granule float labels that do not match bit for bit
+        return xr.DataArray(arr, dims=("y", "x"), coords={"x": np.linspace(-50, 50, m) + 1e-9 * (which == 1)})
+    if kind == "xr_yone":       # row labels on one operand only
+        return xr.DataArray(arr, dims=("y", "x"), coords={"y": np.arange(n) + 10}) if which != 1 else xr.DataArray(arr, dims=("y", "x"))
+    raise ValueError(kind)
+
+
+def tag_arrays(n, m, base=0, kind=None, which=0):
     r = np.arange(n, dtype=np.float64)[:, None] + base
     c = np.arange(m, dtype=np.float64)[None, :]
     tags = r * 1000 + c
-    return tags, -tags - 0.5     # lons carry the tag, lats a different injective image of it
+    return back(tags, kind, which), back(-tags - 0.5, kind, which)     # lons carry the tag, lats a different injective image of it
 
 
 res = []
 for c in req.get("swath", []):
     try:
-        lons, lats = tag_arrays(c["n"], c["m"])
+        lons, lats = tag_arrays(c["n"], c["m"], kind=c.get("backing"), which=2)
         s = mk_swath(c["cls"], lons, lats)
         r = {"steps": []}
         for key in c["keys"]:
@@ -216,8 +287,8 @@ out["swath"] = res
 res = []
 for c in req.get("swath_concat", []):
     try:
-        lons1, lats1 = tag_arrays(c["n1"], c["m"])
-        lons2, lats2 = tag_arrays(c["n2"], c["m2"], base=500)
+        lons1, lats1 = tag_arrays(c["n1"], c["m"], kind=c.get("backing"), which=0)
+        lons2, lats2 = tag_arrays(c["n2"], c["m2"], base=500, kind=c.get("backing"), which=1)
         a, b = mk_swath(c["cls"], lons1, lats1), mk_swath(c["cls"], lons2, lats2)
         r = {}
         try:
@@ -232,7 +303,7 @@ for c in req.get("swath_concat", []):
         except Exception as e:
             r["concat"] = err(e)
         if c["cls"] == "legacy" and c["m"] == c["m2"]:
-            a2 = mk_swath(c["cls"], lons1.copy(), lats1.copy())
+            a2 = mk_swath(c["cls"], *tag_arrays(c["n1"], c["m"], kind=c.get("backing"), which=0))
             a2.append(b)
             r["append"] = {"shape": [int(v) for v in a2.shape], "size": int(a2.size),
                            "lons": np.asarray(a2.lons).astype(np.int64).tolist(),
@@ -240,11 +311,16 @@ for c in req.get("swath_concat", []):
         # split at row k and concatenate
         k = c.get("k")
         if k is not None:
-            top, bottom = a[slice(0, k), slice(None)], a[slice(k, c["n1"]), slice(None)]
-            s2 = top.concatenate(bottom)
-            r["split"] = {"lons_eq": bool(np.array_equal(np.asarray(s2.lons), lons1)),
-                          "lats_eq": bool(np.array_equal(np.asarray(s2.lats), lats1)),
-                          "eq": bool(s2 == a), "shape": [int(v) for v in s2.shape]}
+            a3 = mk_swath(c["cls"], *tag_arrays(c["n1"], c["m"], kind=c.get("backing"), which=2))
+            try:
+                top, bottom = a3[slice(0, k), slice(None)], a3[slice(k, c["n1"]), slice(None)]
+                s2 = top.concatenate(bottom)
+                l2, t2 = np.asarray(s2.lons), np.asarray(s2.lats)
+                r["split"] = {"lons_eq": bool(l2.shape == np.asarray(a3.lons).shape and np.array_equal(l2, np.asarray(a3.lons))),
+                              "lats_eq": bool(t2.shape == np.asarray(a3.lats).shape and np.array_equal(t2, np.asarray(a3.lats))),
+                              "eq": bool(s2 == a3), "shape": [int(v) for v in s2.shape]}
+            except Exception as e:
+                r["split"] = err(e)
         res.append(r)
     except Exception as e:
         res.append(err(e))
